@@ -19,7 +19,8 @@
 (***************************************************************************)
 EXTENDS Integers, Sequences, FiniteSets, TLC, Json, Rat
 
-CONSTANTS Ns, TestSizes, Batches, Orders
+CONSTANTS Ns, TestSizes, Batches, Orders,
+          Scalers     \* subset of BOOLEAN: whether the Simulator is given a scaler for the contexts
 
 ---------------------------------------------------------------------------
 (* split arithmetic; test sizes are dyadic rationals so that the float arithmetic of the code is exact *)
@@ -37,23 +38,33 @@ OnlineFrom(start, T, B) ==
          IN  <<[op |-> "predict", rows |-> rows], [op |-> "expectations", rows |-> rows],
                [op |-> "partial_fit", rows |-> rows]>> \o OnlineFrom(stop + 1, T, B)
 
-Script(T, B) ==
+Script0(T, B) ==
     IF B = 0 THEN <<[op |-> "fit_train"], [op |-> "predict", rows |-> [i \in 1..T |-> i]]>>
     ELSE <<[op |-> "fit_train"]>> \o OnlineFrom(1, T, B)
+(* with a scaler the contexts are standardised ONCE, before anything is trained: the scaler is fitted on the training *)
+(* rows only and then applied, unchanged, to the training rows and to every test row                                 *)
+Script(T, B) == Script0(T, B)
+ScriptOf(c, T) == IF c.scaled THEN <<[op |-> "scale_fit_on_train"]>> \o Script0(T, c.batch) ELSE Script0(T, c.batch)
 
 VARIABLES cfg, emitted
 vars == <<cfg, emitted>>
 
-Configs == {c \in [n : Ns, ts : TestSizes, ordered : Orders, batch : Batches] :
+Configs == {c \in [n : Ns, ts : TestSizes, ordered : Orders, batch : Batches, scaled : Scalers] :
                /\ TestCount(c.n, c.ts, c.ordered) >= 1 /\ TestCount(c.n, c.ts, c.ordered) < c.n
                /\ c.batch <= CeilDiv(c.n * c.ts[1], c.ts[2])}        \* the constructor's own bound on batch_size
 
 Init == cfg \in Configs /\ emitted = FALSE
 Emit == /\ ~emitted /\ emitted' = TRUE /\ UNCHANGED cfg
         /\ PrintT(ToJson([n |-> cfg.n, ts |-> cfg.ts, ordered |-> cfg.ordered, batch |-> cfg.batch,
-                          T |-> TestCount(cfg.n, cfg.ts, cfg.ordered),
-                          script |-> Script(TestCount(cfg.n, cfg.ts, cfg.ordered), cfg.batch)]))
+                          scaled |-> cfg.scaled, T |-> TestCount(cfg.n, cfg.ts, cfg.ordered),
+                          script |-> ScriptOf(cfg, TestCount(cfg.n, cfg.ts, cfg.ordered))]))
 Next == Emit
+
+(* the scaler is fitted exactly once, on the training rows, before any bandit sees a context *)
+Inv_C15_ScaleFirst ==
+    LET s == ScriptOf(cfg, TestCount(cfg.n, cfg.ts, cfg.ordered)) IN
+    /\ cfg.scaled => s[1].op = "scale_fit_on_train"
+    /\ \A i \in DOMAIN s : s[i].op = "scale_fit_on_train" => (i = 1 /\ cfg.scaled)
 
 (* every test row is predicted exactly once, in test order, and (online) learned after it was predicted *)
 RECURSIVE CatRows(_)
